@@ -260,7 +260,14 @@ class AASXReader:
                     continue
                 absolute_name = pyecma376_2.package_model.part_realpath(element.value, part_name)
                 logger.debug("Reading supplementary file {} from AASX package ...".format(absolute_name))
-                with self.reader.open_part(absolute_name) as p:
+                try:
+                    part = self.reader.open_part(absolute_name)
+                except KeyError:
+                    # The writer skips files which are missing in its file store, so this is not an error
+                    logger.warning("Could not find supplementary file {} in AASX package. Skipping it."
+                                   .format(absolute_name))
+                    continue
+                with part as p:
                     final_name = file_store.add_file(absolute_name, p, self.reader.get_content_type(absolute_name))
                 element.value = final_name
 
